@@ -163,6 +163,23 @@ func init() {
 					panic("c04: gsstok: " + err.Error())
 				}
 				s = append(s, seed{name: "ref/" + kind + "-acceptor-" + strconv.FormatBool(acc), in: b})
+				// the smallest well-formed tokens: a header and nothing else (no payload, EC = 0), a header with a payload
+				// and no checksum, and a header announcing a rotation count. Prefixes of the tokens above keep their EC and
+				// are refused at once, so these shapes are only reached from seeds of their own.
+				hdr := append([]byte{}, b[:16]...)
+				if kind == "wrap" {
+					hdr[4], hdr[5], hdr[6], hdr[7] = 0, 0, 0, 0
+					s = append(s, seed{name: "hand/wrap-header-only-" + strconv.FormatBool(acc), in: append([]byte{}, hdr...)},
+						seed{name: "hand/wrap-no-checksum-" + strconv.FormatBool(acc), in: append(append([]byte{}, hdr...), []byte("payload")...)})
+					rot := append([]byte{}, b...)
+					rot[6], rot[7] = 0, 28
+					s = append(s, seed{name: "hand/wrap-rrc-28-" + strconv.FormatBool(acc), in: rot})
+					hr := append([]byte{}, hdr...)
+					hr[7] = 28
+					s = append(s, seed{name: "hand/wrap-header-only-rrc-28-" + strconv.FormatBool(acc), in: hr})
+				} else {
+					s = append(s, seed{name: "hand/mic-header-only-" + strconv.FormatBool(acc), in: hdr})
+				}
 			}
 			return s
 		})
